@@ -243,7 +243,7 @@ let dispatch (f : string) (args : sx list) : sx =
       sx_of_result (fun ds' -> L (SL.map (fun (r : (coq_N list * coq_N list) * coq_N list option) ->
           let ((n, t), v) = r in L [sx_of_str n; sx_of_str t; sx_of_opt sx_of_str v])
         (UserField.list_fields_and_values None ds'))) (UserField.update data' (SL.map decl_of ds))
-  | "pkg_save", [t] ->
+  | ("pkg_save" | "pkg_premises"), [t] ->
       let rec odoc_of = function
         | L [mt; fo; hs; L pics; L kids] ->
             ODoc (str_of_sx mt, str_of_sx fo, bool_of_sx hs,
@@ -255,6 +255,9 @@ let dispatch (f : string) (args : sx list) : sx =
             { t_root = odoc_of root; t_thumb = opt_of_sx (function L [b; m] -> (str_of_sx b, str_of_sx m) | _ -> failwith "thumb") th;
               t_extras = SL.map (function L [n; m; c] -> ((str_of_sx n, str_of_sx m), opt_of_sx str_of_sx c) | _ -> failwith "extra") ex }
         | _ -> failwith "topdoc") in
+      if f = "pkg_premises" then
+        L [sx_of_bool (PackageCheck.pairs_distinct top); sx_of_bool (PackageCheck.shape_ok (PackageCheck.core top)); sx_of_bool (PackageCheck.extras_apart top)]
+      else
       let (es, man) = Package.save_m top in
       let pl = function
         | DBytes b -> L [A "B"; sx_of_str b]
